@@ -12,6 +12,57 @@ COMMON_ASSUME = [
 ]
 
 REGISTRY = {
+    "C19": {
+        "level": "exploration",
+        "technique": "poll-granularity schedule enumeration of the real merge channel with a counting waker (single thread, no runtime), re-entrant pause-point interleavings, multi-threaded stress with seeded pause points + offline log checker; Miri / TSan variants",
+        "rule": "part a: A1 = every step sequence up to length 10 (quick) / 13 (thorough) over {merge(unique id appended), retract/no-op modify, drop sender, start recv, poll, cancel, drop receiver} followed by a drain that polls only when woken; A2 = the same steps where each of the four in-code pause points is also a scheduling point (the other party's steps run re-entrantly there), up to length 8 / 10; "
+                "part b: producer/consumer OS threads with seeded merges, retracts, bursts before drop, cancel experiments, early receiver drop and seeded delays at the pause points; distinct = distinct schedule (a) / (plan, pause-point interleaving signature) (b); non-trivial = at least one merge and one poll",
+        "assumptions": COMMON_ASSUME + ["part b samples thread interleavings (distinct pause-point signatures are counted); a consumer still parked 30 s after the producer finished is a hang only if its waker was never woken and no event was logged in the second half of the wait"],
+        "quick": [{"variant": "dbg"}],
+        "thorough": [{"variant": "dbg", "timeout_t": 5400},
+                     {"variant": "tsan", "part": "b", "scale": 0.1, "optional": True},
+                     {"variant": "miri", "part": "a", "optional": True, "timeout_t": 3000},
+                     {"variant": "miri", "part": "b", "optional": True, "miri_seeds": 16, "timeout_t": 3000}],
+        "level_text": "Every schedule of the bounded space is executed against the real channel and judged after every step: received vectors reconstruct exactly what was merged (each id once, in order), a Pending poll while a value is pending or the sender is gone must have been followed by a wake (lost wake-up stated logically), None only after the last value, modify fails iff the receiver is gone. Exhaustive for the stated bounds (sequentially consistent interleavings at the pause points); threads, TSan and Miri add sampled weak-memory and preemption coverage.",
+        "level_note": "trusted: the inline model in checks/c19.rs; the merge_channel re-export hook and the four pause points (outside all locks); Part C (user-visible refresh through a session) is covered by the mock-cluster check part c",
+        "design_ref": "DESIGN.md §4 C19",
+    },
+    "C06": {
+        "level": "exploration",
+        "technique": "safety-table monitor over whole error histories fed to the real RetrySession (hook constructor), exhaustive to a length bound; end-to-end frame counting against the mock cluster",
+        "rule": "part a: histories of per-attempt errors (91 concrete error values in ~35 classes: every DbError variant with boundary fields, broken connection, no stream id, parse errors) fed to one RetrySession of Default / DowngradingConsistency / Fallthrough, following each decision; every history the policy lets happen up to length 4 (quick) / 5 (thorough) x idempotent x 11 initial consistencies x 3 policies, 16 identical failures per class, random histories of 5-16 attempts; non-trivial = history of >= 2 attempts; distinct = (policy, idempotent, initial CL, class sequence). "
+                "part b: the same error scripts injected by mock nodes into a real Session; frames per logical request are counted per node and compared with the decisions recorded by a wrapping RetryPolicy",
+        "assumptions": COMMON_ASSUME + ["the constant bounding same-target retries is taken from the documentation (Default: 2); for Downgrading only boundedness by a small constant is asserted"],
+        "quick": [{"variant": "dbg", "part": "a"}, {"variant": "dbg", "part": "b"}],
+        "thorough": [{"variant": "dbg", "part": "a"}, {"variant": "dbg", "part": "b"}],
+        "level_text": "The statement's safety table (a non-idempotent request is re-sent only after unavailable / bootstrapping / no stream id / read timeout; Default never retries at serial consistency; bounded same-target retries; Fallthrough never) is checked on every decision of every enumerated history with the real policy sessions; end to end, the number, target and consistency of frames a node receives per request must equal 1 + the retry decisions taken.",
+        "level_note": "trusted: refmodel/retry.rs (table from the statement), the RequestInfo constructor hook, the mock cluster's frame log",
+        "design_ref": "DESIGN.md §4 C06",
+    },
+    "C07": {
+        "level": "fault_enumeration",
+        "technique": "scripted mock nodes (arbitrary page splits, per-page faults) + offline comparison of the delivered row stream with the script; server-side paging-state sequence monitor",
+        "rule": "cases = page scripts: result sets split into 1..12 pages (empty pages, empty last page, one huge page), unique row values, arbitrary paging-state bytes, a fault per page (retryable error, non-retried error, connection cut mid-frame, delay); every fault kind at every page index 0..5 enumerated, random scripts beyond; x prepared/unprepared pager x idempotent x retry policy (Default/Fallthrough) x consumer (fast, slow, early drop); plus the control connection's pager over >1024-row system tables; "
+                "non-trivial = more than one page or at least one row; distinct = distinct (page lengths, faults, state lengths, pager, idempotence, policy, consumer)",
+        "assumptions": COMMON_ASSUME,
+        "quick": [{"variant": "dbg"}],
+        "thorough": [{"variant": "dbg", "timeout_t": 5400}],
+        "level_text": "For every script the rows the stream delivered must be exactly the pages in server order, each once, then end; an error may surface only after all rows of the pages before the failing page; every page request must carry the paging state issued with the previously delivered page (none for the first), never a state the node did not issue, never a request after the last page.",
+        "level_note": "trusted: mock cluster; three-node cluster so that 'retry on next target' switches coordinator; real time only for pacing",
+        "design_ref": "DESIGN.md §4 C07",
+    },
+    "C13": {
+        "level": "exploration",
+        "technique": "virtual-time (paused tokio clock) schedule enumeration of the real speculative-execution loop via hook, reference-model judge; end-to-end overlap monitor on mock nodes",
+        "rule": "part a: cases = (max speculative executions 0..4, interval in {10,2,0} ms, script of (completion delay, outcome kind) per started execution) with delays on a grid that hits every tie with timer ticks and between executions; outcome kinds success / definitive error / identified ignorable error / anonymous ignorable / plan exhausted; all scripts for max 0..2 (quick) / 0..4 (thorough) enumerated, random schedules for longer ones; non-trivial = at least 2 executions started; distinct = (max, interval, script). "
+                "part b: real Session with mock-node delays: frames of one non-idempotent request never overlap on two nodes; idempotent: executions <= 1+max, distinct targets, first real answer returned",
+        "assumptions": COMMON_ASSUME + ["ties between a timer tick and a completion (or two completions) are unspecified: every order is accepted"],
+        "quick": [{"variant": "dbg", "part": "a"}, {"variant": "dbg", "part": "b"}],
+        "thorough": [{"variant": "dbg", "part": "a", "timeout_t": 5400}, {"variant": "dbg", "part": "b"}],
+        "level_text": "The real execute loop is run under a paused clock for every enumerated schedule and judged by a model of the statement: at most 1+max starts, only at multiples of the interval while nothing definitive arrived and the plan is not exhausted, the return value is the first non-ignorable completion (else the last ignorable error once nothing can start any more), and the call always returns: a one-virtual-hour timeout firing is a deterministic witness of waiting on nothing. Exhaustive for the stated bound.",
+        "level_note": "trusted: refmodel/specexec.rs; the hook builds a real Context; tokio's paused-clock auto-advance semantics",
+        "design_ref": "DESIGN.md §4 C13",
+    },
     "C17": {
         "level": "exploration",
         "technique": "documentation-derived compatibility table as oracle over the complete carrier x column-type matrix; snapshot/compare rollback monitor with an independent [value] parser",
